@@ -470,6 +470,44 @@ def run_history(ctx, h, scratch):
     return True
 
 
+class _HandsOutItsOwnTag:
+    """A tagifiable that keeps the (already tagified) tag it hands out - a component with a cached rendering."""
+
+    def __init__(self, kept):
+        self.kept = kept
+
+    def tagify(self):
+        return self.kept
+
+
+def check_handed_out_expansions(ctx, rng):
+    """Whatever a tagify() method hands out still belongs to the object that handed it out: no read-only operation on a tree or
+    document that contains the object changes it."""
+    name = rng.choice(["html", "html", "body", "div", "head"])
+    mk = {"html": lambda: ht.tags.html(ht.tags.head(ht.tags.title("t")), ht.tags.body("b", ht.HTMLDependency("kept-dep", "1.0", script={"src": "k.js"})), lang="fr", class_="page"),
+          "body": lambda: ht.tags.body("b", ht.span("s"), class_="bd"), "div": lambda: ht.div("d", id="i"), "head": lambda: ht.tags.head(ht.tags.title("t"))}[name]
+    w = _HandsOutItsOwnTag(mk())
+    before = fp(w.kept)
+    kw = rng.choice([{}, {"lang": "de"}, {"class_": "dark", "style": "margin:0;"}, {"data_x": True, "lang": None}])
+    ops = [("HTMLDocument(w, **kw).render()", lambda: ht.HTMLDocument(w, **kw).render()), ("HTMLDocument(w).render() twice", lambda: [ht.HTMLDocument(w, **kw).render() for _ in range(2)]),
+           ("HTMLDocument(TagList(w)).render()", lambda: ht.HTMLDocument(ht.TagList(w), **kw).render()), ("div(w).render()", lambda: ht.div(w).render()),
+           ("str(TagList(w))", lambda: str(ht.TagList(w))), ("TagList(w).tagify().get_html_string()", lambda: ht.TagList(w).tagify().get_html_string()),
+           ("HTMLDocument(dep, w).render()", lambda: ht.HTMLDocument(ht.HTMLDependency("d", "1.0"), w, **kw).render())]
+    rng.shuffle(ops)
+    for label, op in ops[: rng.randint(2, len(ops))]:
+        ctx.count("monitor.handed_out_expansions")
+        try:
+            op()
+        except Exception as e:
+            ctx.violation("read-only-op-raises", "%s raised %r" % (label, e), {"kept": name, "op": label, "kw": repr(kw)})
+            return False
+        if fp(w.kept) != before:
+            ctx.violation("read-only-op-mutates:expansion-result", "%s changed the <%s> tag that the object's tagify() hands out (and keeps)" % (label, name),
+                          {"kept": name, "op": label, "kw": repr(kw), "now": str(w.kept)[:300]})
+            return False
+    return True
+
+
 def check_default_equivalence(ctx, kind, obj, tf, nofs, scratch, wit):
     """Leaving a parameter out is the same as passing its documented default - positionally or by keyword."""
     ops = ops_for(kind, scratch)
@@ -721,3 +759,4 @@ def _run(ctx, scratch):
         ctx.guard(run_history, ctx, h, scratch, witness={"history": h})
         ctx.case(h, nontrivial=nontrivial(h))
         ctx.guard(check_equality, ctx, rng, lg.Ids(), witness={"what": "equality"})
+        ctx.guard(check_handed_out_expansions, ctx, rng, witness={"what": "expansion results that their object keeps"})
